@@ -506,6 +506,15 @@ class Runner:
         # attached to a mocap body are placed relative to the model pose of their parent, not its mocap pose
         ck.discard('finding:child-of-mocap-body-kinematics')
         return
+    if 'density' in gm.info['option'] and c.tm.nbody > 1:
+      I = np.asarray(c.tm.body_inertia)[1:]
+      m_ = np.asarray(c.tm.body_mass)[1:]
+      if np.any((I.sum(axis=1)[:, None] - 2 * I < 1e-9) & (m_[:, None] > 0)):
+        # inertia on the triangle-inequality boundary (e.g. diaginertia 0.144 0.043 0.187): the equivalent fluid box has a zero
+        # side; the C engine clamps it at mjMINVAL=1e-15, MJX at 1e-12 (passive._inertia_box_fluid_model), giving a 1e-7 relative
+        # difference in qfrc_passive - degenerate input, not compared
+        ck.discard('degenerate-inertia-box-with-fluid')
+        return
     if spatial_tendon_armature(c.tm) and not FINDINGS:
       # candidate finding F29: qfrc_bias term armature*J'*(Jdot v) of a spatial tendon: the C engine matches a finite
       # difference of ten_J along qvel, smooth.tendon_dot/tendon_bias of MJX is off (factor 1.2075 in the recorded case)
